@@ -205,6 +205,25 @@ pub fn c02(ctx: &Ctx) -> PropResult {
             }
         }
     }
+    // FOR EACH over a list its body changes: "every element present at its turn"
+    for src in crate::props3::for_each_mutation_family() {
+        cases.push(run_case(src, "for-each-mutates-list"));
+    }
+    // FOR EACH over an empty / one-element collection with an outer variable of the same name, read afterwards
+    for coll in ["[]", "\"\"", "[1]", "\"z\"", "[[]]"] {
+        for outer in ["x <- \"outer\"\n", ""] {
+            for ctl in ["", "BREAK\n", "CONTINUE\n"] {
+                cases.push(run_case(format!("{outer}FOR EACH x IN {coll} {{\nDISPLAY(x)\n{ctl}}}\nDISPLAY(\"after\")\nDISPLAY(x)\n"), "for-each-outer-variable"));
+            }
+        }
+    }
+    // REPEAT UNTIL: CONTINUE / BREAK in the very iteration that makes the condition true; conditions with effects
+    for ctl in ["CONTINUE", "BREAK", "k <- k"] {
+        for at in 1..4 {
+            cases.push(run_case(format!("k <- 0\nREPEAT UNTIL (k == 3) {{\nk <- k + 1\nDISPLAY(k)\nIF (k == {at}) {{\n{ctl}\n}}\nDISPLAY(\"tail\")\nIF (k > 6) {{\nBREAK\n}}\n}}\nDISPLAY(k)\n"), "until-ctl-at-boundary"));
+            cases.push(run_case(format!("PROCEDURE c() {{\nDISPLAY(\"cond\")\nRETURN k >= 3\n}}\nk <- 0\nREPEAT UNTIL (c()) {{\nk <- k + 1\nIF (k == {at}) {{\n{ctl}\n}}\nDISPLAY(\"tail\")\n}}\nDISPLAY(k)\n"), "until-effectful-condition"));
+        }
+    }
     let stats = run_cases(&ctx.driver, cases, &no_panic_oracle, &no_known, ctx.threads);
     PropResult {
         stats,
@@ -241,7 +260,12 @@ pub fn c03(ctx: &Ctx) -> PropResult {
         cases.push(run_case(src, "random-procedures"));
     }
     // RETURN at every position of a body with nested constructs, followed by probes
-    let wrappers: [(&str, &str); 6] = [
+    let wrappers: [(&str, &str); 10] = [
+        // loop headers whose evaluation is observable: after RETURN nothing of the header may run again
+        ("k <- 0\nREPEAT UNTIL (probe(k >= 2)) {\nk <- k + 1\n", "}\n"),
+        ("q <- [1, 2, 3]\nREPEAT UNTIL (REMOVE(q, 1) == 3) {\nDISPLAY(q)\n", "}\nDISPLAY(q)\n"),
+        ("REPEAT probe(2) TIMES {\n", "}\n"),
+        ("FOR EACH e IN probe([1, 2]) {\n", "}\n"),
         ("", ""),
         ("IF (TRUE) {\n", "}\n"),
         ("REPEAT 2 TIMES {\n", "}\n"),
@@ -260,7 +284,7 @@ pub fn c03(ctx: &Ctx) -> PropResult {
                     }
                     inner.push_str(&format!("DISPLAY(\"s{i}\")\n"));
                 }
-                let src = format!("x <- \"global\"\nPROCEDURE f(x) {{\nDISPLAY(\"in\")\n{open}{inner}{close}DISPLAY(\"tail\")\nRETURN \"end\"\n}}\nDISPLAY(f(1))\nDISPLAY(f(2) + f(3))\nDISPLAY(x)\n");
+                let src = format!("PROCEDURE probe(v) {{\nDISPLAY(\"header\")\nRETURN v\n}}\nx <- \"global\"\nPROCEDURE f(x) {{\nDISPLAY(\"in\")\n{open}{inner}{close}DISPLAY(\"tail\")\nRETURN \"end\"\n}}\nDISPLAY(f(1))\nDISPLAY(f(2) + f(3))\nDISPLAY(x)\n");
                 cases.push(run_case(src, "return-position"));
             }
         }
@@ -307,12 +331,17 @@ pub fn c04(ctx: &Ctx) -> PropResult {
     let n = if ctx.quick() { 5_000 } else { 120_000 };
     for _ in 0..n {
         let len = 1 + rng.below(if ctx.quick() { 12 } else { 30 });
-        let mut src = format!("INF <- {}\nNAN <- INF - INF\nPROCEDURE mut(p) {{\n APPEND(p, \"m\")\n p <- [\"fresh\"]\n APPEND(p, \"n\")\n}}\nPROCEDURE show() {{\n}}\na <- [1, 2]\nb <- [3]\nc <- \"héllo\"\n", inf_literal());
+        let mut src = format!("INF <- {}\nNAN <- INF - INF\nPROCEDURE mut(p) {{\n APPEND(p, \"m\")\n p <- [\"fresh\"]\n APPEND(p, \"n\")\n}}\nPROCEDURE show() {{\n}}\na <- [1, 2]\nb <- [3]\nc <- \"héllo\"\nd <- [9]\n", inf_literal());
         for _ in 0..len {
             let v = vars[rng.below(2)];
             let w = vars[rng.below(3)];
             let i = idx[rng.below(idx.len())].replace("(a)", &format!("({v})"));
-            let stmt = match rng.below(16) {
+            let stmt = match rng.below(21) {
+                16 => format!("d <- {v} + []"),
+                17 => format!("d <- [] + {v}"),
+                18 => format!("d <- {v} + {w}"),
+                19 => format!("{v} <- []"),
+                20 => format!("d <- {w}[1]"),
                 0 => format!("{v} <- [{}, {}]", rng.below(9), rng.below(9)),
                 1 => format!("{v} <- {w}"),
                 2 => format!("DISPLAY({w}[{i}])"),
@@ -332,7 +361,7 @@ pub fn c04(ctx: &Ctx) -> PropResult {
             };
             src.push_str(&stmt);
             src.push('\n');
-            src.push_str("DISPLAY(a)\nDISPLAY(b)\nDISPLAY(c)\n");
+            src.push_str("DISPLAY(a)\nDISPLAY(b)\nDISPLAY(c)\nDISPLAY(d)\n");
         }
         cases.push(run_case(src, "history"));
     }
